@@ -152,7 +152,8 @@ impl Repository {
         }
 
         let name = String::from(path.file_stem()?.to_str()?);
-        let expansion_number = name[2..3].parse().ok()?;
+        // not every directory under sqpack is called exN: short or non-ASCII names are no repository
+        let expansion_number = name.get(2..3)?.parse().ok()?;
 
         let mut d = PathBuf::from(dir);
         d.push(format!("{name}.ver"));
